@@ -1,6 +1,6 @@
 (* C16 — the work queue schedules every class completely, once, in order, and
    terminates.  Only statements; proofs are applications of lemmas of
-   Queue/{Termination,Invariant,Trace}.v.
+   Queue/{Termination,Invariant,Trace,Bound,First}.v.
 
    The pack (inferral strategies, initial strategies, expansion sets — any
    numbers, any sizes, possibly empty) is a Section variable.  `run ops` is the
@@ -15,6 +15,7 @@
    `noinf_work l` = the same without the inferral packet. *)
 From Coq Require Import ZArith List Bool Lia.
 From CSS Require Import Queue.Model Queue.Lists Queue.Termination Queue.Invariant Queue.Trace.
+From CSS Require Import Queue.Bound Queue.First.
 From CSS Require Gen.QueueCanDoInferral Gen.QueueCanDoInitial Gen.QueueChangeLevelOrder.
 From CSS Require Import Queue.GenBridge.
 Import ListNotations.
@@ -32,6 +33,7 @@ Notation exec := (exec inferral_strategies initial_strategies expansion_strats).
 Notation run ops := (exec (init_state expansion_strats) ops).
 Notation all_work := (all_work inferral_strategies initial_strategies expansion_strats).
 Notation noinf_work := (noinf_work initial_strategies expansion_strats).
+Notation inf_packet := (inf_packet inferral_strategies).
 
 (* ---- termination ---- *)
 
@@ -80,8 +82,9 @@ Proof. intros ops s evs p q'. apply never_ignored_state. Qed.
 
 (* per label, what has been handed out is always a PREFIX of its work in the
    prescribed order: inferral, then the initial strategies in pack order, then
-   expansion set 0, 1, ... each in pack order (the inferral packet may be
-   missing altogether: label marked not-inferrable first) *)
+   expansion set 0, 1, ... each in pack order, or of the same list without the
+   inferral packet (this theorem puts NO condition on the second alternative;
+   WHEN the inferral packet may be missing is C16_inferral_first) *)
 Theorem C16_order : forall ops s evs l,
   run ops = (s, evs) ->
   prefix (fl l (handed evs)) (all_work l) \/ prefix (fl l (handed evs)) (noinf_work l).
@@ -90,8 +93,10 @@ Proof. intros ops s evs l. apply order_trace. Qed.
 (* ---- 2. no duplicate ---- *)
 
 (* if the initial and expansion strategies of the pack are pairwise distinct,
-   no packet — i.e. no (label, strategy) pair and no (label, inferral) — is
-   handed out twice in a history *)
+   no PACKET (label, strategies, inferral flag) is handed out twice in a
+   history.  (A strategy that is also one of the inferral strategies is still
+   applied twice to a label: inside the inferral packet and alone; the
+   hypothesis does not mention the inferral list.) *)
 Theorem C16_no_duplicate :
   NoDup (initial_strategies ++ concat expansion_strats) ->
   forall ops s evs, run ops = (s, evs) -> NoDup (handed evs).
@@ -136,8 +141,8 @@ Proof. intros ops s evs q' g more s' evs'. apply exhaustion_stable. Qed.
    queue state: if the level counter has moved it finishes at once; otherwise
    it yields exactly what next(queue) yields, and when next(queue) raises
    StopIteration it raises NoMoreClassesToExpandError iff the level counter
-   is still c (the queue ran dry first), else it finishes (the counter has
-   strictly advanced) *)
+   is still c, else it finishes (the counter has strictly advanced - possibly
+   in this very call, without anything having been yielded: C16_phantom_level) *)
 Theorem C16_do_level : forall c q e g' q',
   gen_next (GRunning c) q = (e, g', q') ->
   (c <> levels_completed q -> e = EGenStop /\ g' = GDone /\ q' = q) /\
@@ -162,6 +167,104 @@ Theorem C16_do_level_fresh_done : forall q,
   gen_next GFresh q = gen_next (GRunning (levels_completed q)) q /\
   gen_next GDone q = (EGenStop, GDone, q).
 Proof. intros q. split; reflexivity. Qed.
+
+(* ---- 6. only added labels; the packets of a RUN are bounded; a drain terminates ---- *)
+
+(* every packet handed out in a history carries a label that was added in that
+   history (the queue fabricates no label) ... *)
+Theorem C16_only_added : forall ops s evs p,
+  run ops = (s, evs) -> In p (handed evs) -> In (p_label p) (added ops).
+Proof. exact (only_added inferral_strategies initial_strategies expansion_strats). Qed.
+
+(* ... and so does every label that is still anywhere in the queue: in
+   `working`, a key of `next_level`, in a deque of `curr_level`, or on a staged
+   packet (the converse of the coverage part of the invariant) *)
+Theorem C16_queue_only_added : forall ops s evs,
+  run ops = (s, evs) ->
+  incl (working (sq s)) (added ops) /\ incl (keys (next_level (sq s))) (added ops) /\
+  incl (concat (curr_level (sq s))) (added ops) /\
+  (forall p, In p (staging (sq s)) -> In (p_label p) (added ops)).
+Proof. exact (run_Sub inferral_strategies initial_strategies expansion_strats). Qed.
+
+(* the number of packets of a whole history is at most (number of DISTINCT
+   labels added) * (packets of one label: 1 if the pack has inferral
+   strategies + number of initial strategies + total size of the expansion
+   sets).  No hypothesis on the pack: repeated strategies are counted with
+   their multiplicity in `all_work`. *)
+Theorem C16_packets_bounded : forall ops s evs,
+  run ops = (s, evs) ->
+  length (handed evs) <= length (nodup Z.eq_dec (added ops)) * length (all_work 0%Z).
+Proof. exact (handed_bound inferral_strategies initial_strategies expansion_strats). Qed.
+
+(* TERMINATION OF A RUN: after ANY history, calling next(queue) repeatedly
+   (nothing added in between) reaches StopIteration: the (n+1)-th call answers
+   StopIteration for some n with n + (packets handed out so far) <= the bound
+   above; so at most `bound - handed so far` further packets exist. *)
+Theorem C16_drain_terminates : forall ops,
+  exists n,
+    n + length (handed (snd (run ops))) <=
+      length (nodup Z.eq_dec (added ops)) * length (all_work 0%Z) /\
+    last (snd (run (ops ++ repeat ONext (S n)))) ENone = EStopIteration.
+Proof. exact (drain_terminates_run inferral_strategies initial_strategies expansion_strats). Qed.
+
+(* ... and from then on every further next(queue) of the drain answers
+   StopIteration too (C16_exhaustion_stable says the same for any continuation
+   without an add) *)
+Theorem C16_drain_stays_stopped : forall ops n,
+  last (snd (run (ops ++ repeat ONext (S n)))) ENone = EStopIteration ->
+  forall m, n <= m -> last (snd (run (ops ++ repeat ONext (S m)))) ENone = EStopIteration.
+Proof. exact (drain_stays inferral_strategies initial_strategies expansion_strats). Qed.
+
+(* LIVENESS ("schedules every class completely"): after ANY history, the drain
+   above ends - after n further packets, n within the bound - with every label
+   that was added and that the user never told to stop having received ALL its
+   work in order (the inferral packet missing only if the label was marked
+   not-inferrable) *)
+Theorem C16_every_class_eventually_complete : forall ops,
+  exists n,
+    n + length (handed (snd (run ops))) <=
+      length (nodup Z.eq_dec (added ops)) * length (all_work 0%Z) /\
+    last (snd (run (ops ++ repeat ONext (S n)))) ENone = EStopIteration /\
+    forall l, In l (added ops) -> ~ In l (stopped ops) ->
+      fl l (handed (snd (run (ops ++ repeat ONext n)))) = all_work l \/
+      (In l (notinf ops) /\ fl l (handed (snd (run (ops ++ repeat ONext n)))) = noinf_work l).
+Proof. exact (eventually_complete inferral_strategies initial_strategies expansion_strats). Qed.
+
+(* the factor of the bound: the work of one label, whatever the label *)
+Theorem C16_work_size : forall l,
+  length (all_work l) =
+  (if nonempty inferral_strategies then 1 else 0) + length initial_strategies +
+  length (concat expansion_strats).
+Proof. exact (length_all_work_eq inferral_strategies initial_strategies expansion_strats). Qed.
+
+(* the same for level-wise iteration: after ANY history, resuming the do_level
+   generator again and again ends the pass: the (n+1)-th next(generator) raises
+   StopIteration (level complete) or NoMoreClassesToExpandError, for some n with
+   n + (packets handed out so far) <= the bound (the generator in use is the one
+   the history left: fresh if no do_level() was called or after the last one) *)
+Theorem C16_level_pass_terminates : forall ops,
+  exists n,
+    n + length (handed (snd (run ops))) <=
+      length (nodup Z.eq_dec (added ops)) * length (all_work 0%Z) /\
+    let e := last (snd (run (ops ++ repeat OLevelNext (S n)))) ENone in
+    e = EGenStop \/ e = ENoMore.
+Proof. exact (level_pass_terminates inferral_strategies initial_strategies expansion_strats). Qed.
+
+(* ---- 7. "unless the label was marked not-inferrable FIRST" ---- *)
+
+(* if the pack has inferral strategies, the FIRST packet a label l receives in
+   a history is its inferral packet, unless the history contains an
+   `ONotInf l` (at position length ops1) such that no packet of l has been
+   handed out up to and including that position, i.e. the mark strictly
+   precedes the operation that handed out l's first packet.  A mark that
+   arrives later excuses nothing. *)
+Theorem C16_inferral_first : forall ops s evs l p rest,
+  run ops = (s, evs) -> inferral_strategies <> [] ->
+  fl l (handed evs) = p :: rest ->
+  p = inf_packet l \/
+  exists ops1 ops2, ops = ops1 ++ ONotInf l :: ops2 /\
+    fl l (handed (firstn (S (length ops1)) evs)) = [].
+Proof. exact (inferral_first inferral_strategies initial_strategies expansion_strats). Qed.
 
 End C16.
 
@@ -409,6 +512,141 @@ Proof.
   exact (proj1 (C16_do_level_fresh_done qinf qini qexp qd1)).
 Qed.
 
+(* ---- only added / bound / drain / inferral first, on the same 17-op history ---- *)
+
+(* 11 packets, all for labels of added qops = [7; 8; 7; 9]; 8 was added but got none *)
+Example C16_only_added_nonvacuous :
+  (forall p, In p (handed qevs) -> In (p_label p) (added qops)) /\
+  added qops = [7; 8; 7; 9]%Z /\ length (handed qevs) = 11.
+Proof.
+  split; [intros p; exact (C16_only_added qinf qini qexp qops qfinal qevs p qrun_eq)|split; vm_compute; reflexivity].
+Qed.
+
+(* mid-history (8 operations): 7 waits in next_level, 8 (stopped) and 7 are in `working`
+   - every label in the queue was added; the never-added label 9 is nowhere *)
+Example C16_queue_only_added_nonvacuous :
+  let ops := firstn 6 qops in let s := fst (qrun ops) in
+  (incl (working (sq s)) (added ops) /\ incl (keys (next_level (sq s))) (added ops) /\
+   incl (concat (curr_level (sq s))) (added ops) /\
+   (forall p, In p (staging (sq s)) -> In (p_label p) (added ops))) /\
+  working (sq s) = [8; 7]%Z /\ keys (next_level (sq s)) = [7%Z] /\
+  map p_label (staging (sq s)) = [7%Z] /\ added ops = [7; 8; 7]%Z.
+Proof.
+  intros ops s. split; [|repeat split; vm_compute; reflexivity].
+  apply (C16_queue_only_added qinf qini qexp ops s (snd (qrun ops))).
+  unfold s. destruct (qrun ops); reflexivity.
+Qed.
+
+(* 3 distinct labels, 6 packets per label: 11 <= 18; the bound is attained by a history whose
+   only label gets all its work (6 = 1 * 6), and it counts DISTINCT labels (7 is added twice) *)
+Example C16_packets_bounded_nonvacuous :
+  length (handed qevs) <= length (nodup Z.eq_dec (added qops)) * length (all_work qinf qini qexp 0%Z) /\
+  length (nodup Z.eq_dec (added qops)) = 3 /\ length (all_work qinf qini qexp 0%Z) = 6 /\
+  length (added qops) = 4 /\
+  (let ops := OAdd 7 :: repeat ONext 6 in
+   length (handed (snd (qrun ops))) = 6 /\
+   length (nodup Z.eq_dec (added ops)) * length (all_work qinf qini qexp 0%Z) = 6).
+Proof.
+  split; [exact (C16_packets_bounded qinf qini qexp qops qfinal qevs qrun_eq)|].
+  repeat split; vm_compute; reflexivity.
+Qed.
+
+(* after the first 14 operations (8 packets handed out, 3 still due) the drain needs n with
+   n + 8 <= 18; in fact n = 3: three more packets, the 4th next raises StopIteration; after the
+   whole history n = 0 *)
+Example C16_drain_terminates_nonvacuous :
+  (exists n, n + length (handed (snd (qrun qops_mid))) <= 18 /\
+     last (snd (qrun (qops_mid ++ repeat ONext (S n)))) ENone = EStopIteration) /\
+  length (handed (snd (qrun qops_mid))) = 8 /\
+  last (snd (qrun (qops_mid ++ repeat ONext 3))) ENone = EPacket (mkp 9 [6%Z] false) /\
+  last (snd (qrun (qops_mid ++ repeat ONext 4))) ENone = EStopIteration /\
+  last (snd (qrun (qops ++ repeat ONext 1))) ENone = EStopIteration.
+Proof.
+  split; [exact (C16_drain_terminates qinf qini qexp qops_mid)|].
+  repeat split; vm_compute; reflexivity.
+Qed.
+
+Example C16_drain_stays_stopped_nonvacuous :
+  last (snd (qrun (qops_mid ++ repeat ONext (S 9)))) ENone = EStopIteration /\
+  last (snd (qrun (qops_mid ++ repeat ONext (S 2)))) ENone <> EStopIteration.
+Proof.
+  split; [|vm_compute; discriminate].
+  apply (C16_drain_stays_stopped qinf qini qexp qops_mid 3); [vm_compute; reflexivity|repeat constructor].
+Qed.
+
+(* after the first 14 operations label 7 has 5 of its 6 packets and label 9 has 3 of 5; the theorem gives a
+   drain after which both are complete (7 on the all_work branch, 9 - marked - on the noinf_work branch) *)
+Example C16_every_class_eventually_complete_nonvacuous :
+  (exists n, n + length (handed (snd (qrun qops_mid))) <= 18 /\
+     last (snd (qrun (qops_mid ++ repeat ONext (S n)))) ENone = EStopIteration /\
+     forall l, In l (added qops_mid) -> ~ In l (stopped qops_mid) ->
+       fl l (handed (snd (qrun (qops_mid ++ repeat ONext n)))) = all_work qinf qini qexp l \/
+       (In l (notinf qops_mid) /\
+        fl l (handed (snd (qrun (qops_mid ++ repeat ONext n)))) = noinf_work qini qexp l)) /\
+  length (fl 7%Z (handed (snd (qrun qops_mid)))) = 5 /\ length (all_work qinf qini qexp 7%Z) = 6 /\
+  length (fl 9%Z (handed (snd (qrun qops_mid)))) = 3 /\ length (noinf_work qini qexp 9%Z) = 5 /\
+  In 7%Z (added qops_mid) /\ ~ In 7%Z (stopped qops_mid) /\ In 9%Z (added qops_mid) /\ ~ In 9%Z (stopped qops_mid) /\
+  fl 7%Z (handed (snd (qrun (qops_mid ++ repeat ONext 3)))) = all_work qinf qini qexp 7%Z /\
+  fl 9%Z (handed (snd (qrun (qops_mid ++ repeat ONext 3)))) = noinf_work qini qexp 9%Z.
+Proof.
+  split; [exact (C16_every_class_eventually_complete qinf qini qexp qops_mid)|].
+  repeat split; try (vm_compute; reflexivity); try (vm_compute; tauto);
+    vm_compute; intros [H|[]]; discriminate.
+Qed.
+
+Example C16_work_size_nonvacuous : length (all_work qinf qini qexp 7%Z) = 1 + 2 + 3.
+Proof. exact (C16_work_size qinf qini qexp 7%Z). Qed.
+
+(* both endings of a pass: after the first 14 operations the pass hands out the 3 remaining packets and
+   then raises NoMoreClassesToExpandError (n = 3, 3 + 8 <= 18); after the first 8 operations it hands out
+   4 packets (the last one is the first packet of the next level) and then finishes (n = 4) *)
+Example C16_level_pass_terminates_nonvacuous :
+  (exists n, n + length (handed (snd (qrun qops_mid))) <= 18 /\
+     let e := last (snd (qrun (qops_mid ++ repeat OLevelNext (S n)))) ENone in e = EGenStop \/ e = ENoMore) /\
+  map (fun e => match e with EPacket p => Some (p_label p, p_strats p) | _ => None end)
+      (skipn 14 (snd (qrun (qops_mid ++ repeat OLevelNext 4)))) =
+    [Some (9, [5]); Some (7, [6]); Some (9, [6]); None]%Z /\
+  last (snd (qrun (qops_mid ++ repeat OLevelNext 4))) ENone = ENoMore /\
+  map (fun e => match e with EPacket p => Some (p_label p, p_strats p) | _ => None end)
+      (skipn 8 (snd (qrun (firstn 8 qops ++ repeat OLevelNext 5)))) =
+    [Some (7, [3]); Some (9, [2]); Some (9, [3]); Some (7, [4]); None]%Z /\
+  last (snd (qrun (firstn 8 qops ++ repeat OLevelNext 5))) ENone = EGenStop.
+Proof.
+  split; [exact (C16_level_pass_terminates qinf qini qexp qops_mid)|].
+  repeat split; vm_compute; reflexivity.
+Qed.
+
+(* label 7: first packet = inferral packet (left disjunct; 7 is never marked).  Label 9: its first
+   packet is an initial one, so the theorem yields the mark: `ONotInf 9` at position 6, and no packet
+   of 9 up to and including position 6 (its first packet is event 9).  Label 9 again in a history
+   where the mark comes AFTER the first hand-out: the first packet is the inferral packet. *)
+Example C16_inferral_first_nonvacuous :
+  hd_error (fl 7%Z (handed qevs)) = Some (inf_packet qinf 7%Z) /\
+  hd_error (fl 9%Z (handed qevs)) = Some (mkp 9 [2%Z] false) /\
+  (exists ops1 ops2, qops = ops1 ++ ONotInf 9 :: ops2 /\
+     fl 9%Z (handed (firstn (S (length ops1)) qevs)) = []) /\
+  fl 9%Z (handed (firstn 9 qevs)) = [] /\ fl 9%Z (handed (firstn 10 qevs)) <> [] /\
+  (let late := [OAdd 9; ONext; ONotInf 9; ONext] in
+   fl 9%Z (handed (snd (qrun late))) = [inf_packet qinf 9%Z; mkp 9 [2%Z] false]).
+Proof.
+  split.
+  { destruct (C16_inferral_first qinf qini qexp qops qfinal qevs 7%Z
+                (inf_packet qinf 7%Z) (tl (fl 7%Z (handed qevs))) qrun_eq) as [H|H].
+    - discriminate.
+    - vm_compute; reflexivity.
+    - vm_compute; reflexivity.
+    - vm_compute; reflexivity. }
+  split; [vm_compute; reflexivity|]. split.
+  { destruct (C16_inferral_first qinf qini qexp qops qfinal qevs 9%Z
+                (mkp 9 [2%Z] false) (tl (fl 9%Z (handed qevs))) qrun_eq) as [H|H].
+    - discriminate.
+    - vm_compute; reflexivity.
+    - vm_compute in H. discriminate.
+    - exact H. }
+  split; [vm_compute; reflexivity|]. split; [vm_compute; discriminate|].
+  vm_compute; reflexivity.
+Qed.
+
 (* ================= the pure parts are the source's (translator) =================
    can_do_inferral / can_do_initial and the order in which _change_level
    schedules the next level (labels of next_level by decreasing count, stable)
@@ -442,6 +680,15 @@ Print Assumptions C16_stop_again.
 Print Assumptions C16_exhaustion_stable.
 Print Assumptions C16_do_level.
 Print Assumptions C16_do_level_fresh_done.
+Print Assumptions C16_only_added.
+Print Assumptions C16_queue_only_added.
+Print Assumptions C16_packets_bounded.
+Print Assumptions C16_drain_terminates.
+Print Assumptions C16_drain_stays_stopped.
+Print Assumptions C16_every_class_eventually_complete.
+Print Assumptions C16_work_size.
+Print Assumptions C16_level_pass_terminates.
+Print Assumptions C16_inferral_first.
 Print Assumptions C16_can_do_inferral_is_source.
 Print Assumptions C16_can_do_initial_is_source.
 Print Assumptions C16_level_order_is_source.
